@@ -343,8 +343,14 @@ def name_pattern(ck, S, fn, rid, date_is_class):
     short = strip_tmpl(fn.name).split("::")[-1]
     ck.require(len(tpls) >= 2, "%s: expected two name patterns (with / without suffix), found %d" % (short, len(tpls)))
     for t, args, n in tpls:
-        anch = t.startswith("^") and t.endswith("$") and not t.endswith("\\$")
-        ck.ob(rid, sitestr(fn, n), anch, "pattern %r is anchored at both ends" % t if anch else "pattern %r is not anchored: look-alike files match" % t, key="%s|pattern-anchors" % short)
+        from rules.rfs import end_anchor
+        ekind, _ = end_anchor(t)
+        # a loose end anchor ('$', \\Z) lets "<rotated name>\\n" through. For the retention listing that file is then removed (C06: a file
+        # outside the scheme is touched); for the index search it only makes an index be skipped, which breaks nothing
+        anch = (t.startswith("^") or t.startswith("\\A")) and (ekind == "exact" or (ekind == "loose" and not date_is_class))
+        ck.ob(rid, sitestr(fn, n), anch, "pattern %r is anchored at both ends%s" % (t, " (\\z: the end of the name and nothing else)" if ekind == "exact" else "") if anch else
+              "pattern %r ends in an anchor that also matches in front of a final line break: a foreign file whose name ends in a newline is taken for a rotated file" % t if ekind == "loose" and t.startswith(("^", "\\A")) else
+              "pattern %r is not anchored: look-alike files match" % t, key="%s|pattern-anchors" % short)
         esc = all(is_call(a, "QRegularExpression::escape") for a in args)
         ck.ob(rid, sitestr(fn, n), esc and bool(args), "all %d interpolated pieces pass through QRegularExpression::escape" % len(args) if esc else
               "unescaped piece in the name pattern: %s" % [describe(a) for a in args if not is_call(a, "QRegularExpression::escape")], key="%s|pattern-escape" % short)
@@ -358,7 +364,7 @@ def name_pattern(ck, S, fn, rid, date_is_class):
         if date_is_class:
             okd = "\\d{4}-\\d{2}-\\d{2}" in body
             ck.ob(rid, sitestr(fn, n), okd, "the date is \\d{4}-\\d{2}-\\d{2}" if okd else "the date part of %r is not a digit class" % t, key="%s|pattern-date" % short)
-        okgz = body.endswith("(\\.gz)?$")
+        okgz = end_anchor(body)[1].endswith("(\\.gz)?")
         ck.ob(rid, sitestr(fn, n), okgz, "compressed files (.gz) are candidates as well" if okgz else "pattern %r does not cover the .gz form" % t, key="%s|pattern-gz" % short)
     # only regular files
     el = [n for n in fn.calls("QDir::entryList")]
